@@ -344,4 +344,10 @@ theorem verilogOK_verilogOf (cfg : Cfg) (hbf : cfg.bf = false) (nl : Nl) (hc : C
     intro n hn
     simp [hcl.ncb n hn]
 
+theorem benchArity_benchOf (nl : Nl) (hc : CommonNl nl) : benchArityB (benchOf nl) = true := by
+  rw [benchArityB, benchGates_benchOf, List.all_eq_true]
+  intro b hb
+  obtain ⟨g, hg, rfl⟩ := List.mem_map.mp hb
+  simp [nlBGate, hc.len g hg]
+
 end KV.Netlist
